@@ -271,6 +271,131 @@ func buildCases() []kase {
 	}
 	rep.Exhaustive = append(rep.Exhaustive, fmt.Sprintf("equal and neq on every ordered pair of %d maps/lists with null members, absent keys and near-miss key sets (same size, one key renamed), as literals and (a third of the pairs) fetched by path: %d plans", len(ev), neq))
 
+	// exhaustive list box: include and append on every list of at most 2 elements over values that Go's == and
+	// a by-value comparison tell apart (1 vs 1.0, 2^53 vs its float, nested lists and maps: == on two of them panics)
+	{
+		lv := []any{int64(1), 1.0, "a", nil, true, []any{}, map[string]any{}, []any{int64(1)}, int64(1 << 53), float64(1 << 53), "", 0.5}
+		var lists [][]any
+		lists = append(lists, []any{})
+		for _, a := range lv {
+			lists = append(lists, []any{a})
+			for _, b := range lv {
+				lists = append(lists, []any{a, b})
+			}
+		}
+		nlist := 0
+		for _, f := range []string{"include", "append"} {
+			for _, l := range lists {
+				var arg any = l
+				if len(l) > 0 {
+					if _, isStr := l[0].(string); isStr {
+						arg = []any{"quote", l}
+					}
+				}
+				for _, v := range lv {
+					k := kase{stream: "listbox", plan: render([]any{"set", "$.asm", []any{f, arg, v}}), root: boxRoot, alias: true}
+					if _, quoted := arg.([]any); !quoted || len(l) == 0 || arg.([]any)[0] != "quote" {
+						k.spec = &specQ{fn: f, args: render([]any{l, v})}
+					}
+					emit(k)
+					nlist++
+				}
+			}
+		}
+		for _, sv := range [][]any{{"hello", "ell"}, {"hello", ""}, {"", ""}, {"", "a"}, {"ab", "abc"}, {"abc", "bc"}, {"a", int64(1)}, {int64(1), "a"}} {
+			emit(kase{stream: "listbox", plan: render([]any{"set", "$.asm", []any{"include", sv[0], sv[1]}}), root: boxRoot, alias: true,
+				spec: &specQ{fn: "include", args: render(sv)}})
+			nlist++
+		}
+		rep.Exhaustive = append(rep.Exhaustive, fmt.Sprintf("include and append on every list of at most 2 elements over %d values (1, 1.0, 2^53 and its float, strings, nil, a boolean, empty and non-empty lists, a map) with every one of those values as second argument, plus substring cases: %d plans, model = implementation = Spec.describe", len(lv), nlist))
+	}
+
+	// text box: the text functions on every combination of texts from a pool with repeats, overlaps, blanks, upper
+	// case and the characters next to the letters; substr with every small start/count; join over lists of strings
+	{
+		tp := []any{"", "a", "ab", "aba", "b", " a\t", "A", "a,b,,c", ",", "Zz[`{@", "aaa"}
+		ip := []any{int64(-4), int64(-3), int64(-1), int64(0), int64(1), int64(2), int64(3), int64(4), int64(9223372036854775807), int64(-9223372036854775808)}
+		ntext := 0
+		add := func(f string, args ...any) {
+			emit(kase{stream: "textbox", plan: render([]any{"set", "$.asm", append([]any{f}, args...)}), root: boxRoot, alias: true,
+				spec: &specQ{fn: f, args: render(args)}})
+			ntext++
+		}
+		for _, a := range tp {
+			for _, f := range []string{"tolower", "toupper", "title", "trim", "int", "float", "string"} {
+				add(f, a)
+			}
+			for _, b := range tp {
+				for _, f := range []string{"trim", "split", "include"} {
+					add(f, a, b)
+				}
+				for _, c := range []any{"", "a", "b", "xy", ","} {
+					add("replace", a, b, c)
+				}
+			}
+			for _, i := range ip {
+				add("substr", a, i)
+				for _, j := range ip {
+					add("substr", a, i, j)
+				}
+			}
+		}
+		sp := []any{"a", "", "b,", "c"}
+		var sl [][]any
+		sl = append(sl, []any{})
+		for _, a := range sp {
+			sl = append(sl, []any{a})
+			for _, b := range sp {
+				sl = append(sl, []any{a, b})
+				for _, c := range sp {
+					sl = append(sl, []any{a, b, c})
+				}
+			}
+		}
+		for _, l := range sl {
+			arg := []any{"quote", l}
+			emit(kase{stream: "textbox", plan: render([]any{"set", "$.asm", []any{"join", arg}}), root: boxRoot, alias: true})
+			ntext++
+			for _, sep := range []any{"", ",", "ab", int64(5)} {
+				emit(kase{stream: "textbox", plan: render([]any{"set", "$.asm", []any{"join", arg, sep}}), root: boxRoot, alias: true})
+				ntext++
+			}
+		}
+		for _, v := range []any{"12", "-12", "+7", "007", "", "-", "1x", "9223372036854775807", "9223372036854775808", "-9223372036854775808", "1_0", " 1", "1.5", "-0", "123456789012345", "1234567890123456", "abc", "inf", "NaN", "0x10", "1e3"} {
+			add("int", v)
+			add("float", v)
+		}
+		for _, v := range []any{1.5, -1.5, 0.5, -0.5, 2.0, 1e18, -1e18, 9.2e18, 1e19, -1e19, math.Copysign(0, -1), 4611686018427387904.0} {
+			add("int", v)
+			add("float", v)
+			add("string", v)
+		}
+		rep.Exhaustive = append(rep.Exhaustive, fmt.Sprintf("text box: tolower toupper title trim split include replace substr join int float string on every combination of %d texts (repeats, overlaps, blanks, upper case, the characters next to the letters), %d start/count values and lists of at most 3 strings, plus number texts and floats at the int64 boundary: %d plans, model = implementation = Spec.describe", len(tp), len(ip), ntext))
+	}
+
+	// copy box: the functions documented to return a NEW array (reverse, sort, append, getall, split, list) get a
+	// list under $.src of length 0..3, the result is stored and then WRITTEN through: what reaches $.src must be what
+	// the model says (only shared elements, never the array itself)
+	{
+		calls := []any{[]any{"reverse", "$.src.l"}, []any{"sort", "$.src.l", "@"}, []any{"sort", "$.src.l", "@.a"}, []any{"append", "$.src.l", int64(7)},
+			[]any{"getall", "$.src.l.*"}, []any{"list", "$.src.l"}, []any{"each", "$.src.l", []any{"set", "@.asm", "@.src"}}}
+		writes := []any{[]any{"set", "$.asm.r[0]", int64(9)}, []any{"set", "$.asm.r[-1]", "w"}, []any{"del", "$.asm.r[0]"},
+			[]any{"set", "$.asm.r[0].a", int64(9)}, []any{"set", "$.asm.r[0][0]", int64(9)}, []any{"setall", "$.asm.r[1]", nil}}
+		ls := []any{[]any{}, []any{int64(5)}, []any{int64(5), int64(3)}, []any{int64(3), int64(5), int64(4)}, []any{map[string]any{"a": int64(1)}},
+			[]any{[]any{int64(1)}, []any{int64(2)}}, []any{map[string]any{"a": int64(2)}, map[string]any{"a": int64(1)}}, []any{"b", "a"}}
+		ncopy := 0
+		for _, c := range calls {
+			for _, w := range writes {
+				for _, l := range ls {
+					emit(kase{stream: "copybox", plan: render([]any{[]any{"set", "$.asm.r", c}, w}),
+						root: render(map[string]any{"src": map[string]any{"l": l}}), alias: true})
+					ncopy++
+				}
+			}
+		}
+		rep.Exhaustive = append(rep.Exhaustive, fmt.Sprintf("copy box: %d list-returning calls × %d writes through the stored result × %d lists under $.src (length 0-3, scalars, maps, nested lists): %d plans, model = implementation (the array given is never the array returned)", len(calls), len(writes), len(ls), ncopy))
+	}
+
 	// exhaustive sort box: every list of at most 3 elements over values of every key kind, sorted by the element
 	// itself and by its member k (model = implementation, including which comparison raises the error)
 	{
@@ -753,11 +878,19 @@ func judge(d *lib.Driver, k *kase, w WOut, v verdicts) {
 	}
 	// the tie: implementation == model under the expected deviations
 	curOK := modelled1(v.cur)
-	// C20-append-shares-backing: append evaluated at least twice, and the implementation differs from the model
+	// the model has ONE integer kind; Go's `==` in include tells an int (only size returns one) from an int64 of the
+	// same value: a plan that calls both is outside the model
+	if pt0 := mustTree(k.plan); curOK && usesFn(pt0, map[string]bool{"include": true}) && usesFn(pt0, map[string]bool{"size": true}) {
+		curOK = false
+		rep.Count("unmodelled.include-with-size", 1)
+	}
+	// C20-append-shares-backing: append evaluated at least twice, or once in a plan that also writes (set/del
+	// through the stored result reaches the array append was given), and the implementation differs from the model
 	// (append into a new array) only at elements of arrays of equal length
-	if curOK && canonFloats(v.cur) != implRuns && appendsTwice(mustTree(k.plan)) && elementDiffOnly(implRuns, canonFloats(v.cur)) {
+	if pt := mustTree(k.plan); curOK && canonFloats(v.cur) != implRuns && usesFn(pt, map[string]bool{"append": true}) &&
+		(appendsTwice(pt) || hasMutator(pt)) && elementDiffOnly(implRuns, canonFloats(v.cur)) {
 		nontrivial = 1
-		addKnown(k, idAppend, "alias:append-shares-backing", "two evaluations of append on one list share the slot after its last element: the element an earlier append added is overwritten by a later one (the model appends into a new array)")
+		addKnown(k, idAppend, "alias:append-shares-backing", "the result of append shares the backing array of its argument (spare capacity): a later append overwrites the element an earlier one added, and a write through the stored result reaches the array that was given (the model appends into a new array)")
 		return
 	}
 	if curOK {
